@@ -1722,6 +1722,18 @@ class Kinds:
                     yield st
 
         for st in stmts(n.body):
+            if (isinstance(st, ast.If) and not st.orelse and len(st.body) == 1 and isinstance(st.test, ast.Compare) and len(st.test.ops) == 1 and isinstance(st.test.ops[0], ast.NotIn)
+                    and isinstance(st.test.comparators[0], ast.Name) and isinstance(st.body[0], ast.Assign) and len(st.body[0].targets) == 1 and isinstance(st.body[0].targets[0], ast.Subscript)
+                    and isinstance(st.body[0].targets[0].value, ast.Name) and st.body[0].targets[0].value.id == st.test.comparators[0].id and unparse(st.body[0].targets[0].slice) == unparse(st.test.left)
+                    and isinstance(st.body[0].value, ast.Call) and isinstance(st.body[0].value.func, ast.Name) and st.body[0].value.func.id == "len" and len(st.body[0].value.args) == 1
+                    and unparse(st.body[0].value.args[0]) == st.test.comparators[0].id and isinstance(n.iter, ast.Name) and n.iter.id in self.keyviews):
+                # if d not in rank: rank[d] = len(rank) - the first occurrence of a domain fixes its rank
+                r_ = st.test.comparators[0].id
+                dom = _domain_of(st.test.left, var)
+                init = _defs_of(self.fi, r_)
+                if dom is not None and len(init) == 1 and isinstance(init[0], ast.Dict) and not init[0].keys:
+                    self.domranks[r_] = (n.iter.id, dom, "first")
+                continue
             c = st.value if isinstance(st, ast.Expr) else None
             # rank.setdefault(<domain of key>, len(rank)): the first occurrence of a domain fixes its rank
             if (isinstance(c, ast.Call) and isinstance(c.func, ast.Attribute) and c.func.attr == "setdefault" and isinstance(c.func.value, ast.Name) and len(c.args) == 2 and not c.keywords
@@ -1851,6 +1863,12 @@ class Kinds:
             if followed is not None:  # groups = list(_iter_groups(mapping))
                 self.recviews[t.id] = (*followed, n)
                 return
+        if isinstance(t, ast.Name) and isinstance(v, ast.Call) and isinstance(v.func, ast.Name) and v.func.id == "sorted" and v.args and isinstance(v.args[0], ast.Name) and v.args[0].id in self.keyviews:
+            mk_ = self.keyviews[v.args[0].id][0]  # (whether the order is the native one is judged where the view is walked)
+            self.keyviews.setdefault(t.id, (mk_, n))
+            if t.id not in self.kinds:
+                self._bind(t, mk_, n)
+            return
         if isinstance(v, ast.DictComp) and len(v.generators) == 1 and isinstance(t, ast.Name) and not v.generators[0].ifs:
             # {key.split(":", 1)[0]: i for i, key in enumerate(keys)}: a later key of the same domain overwrites the index,
             # so every domain is ranked by its LAST occurrence (reversed(...) would make it the first)
@@ -1949,19 +1967,30 @@ def _key_order(kd: "Kinds", loop: ast.For):
     if not (isinstance(base, ast.Name) and (base.id in kd.keyviews or base.id in kd.recviews)):
         return "flat", None
     name = base.id
+    # `view = sorted(keys, key=...)` (also re-binding the same name): judged like keys.sort(key=...)
+    sa = [n for n in kd.fi.local_nodes() if isinstance(n, ast.Assign) and len(n.targets) == 1 and isinstance(n.targets[0], ast.Name) and n.targets[0].id == name
+          and isinstance(n.value, ast.Call) and isinstance(n.value.func, ast.Name) and n.value.func.id == "sorted" and n.value.args and isinstance(n.value.args[0], ast.Name) and n.value.args[0].id in kd.keyviews]
     sorts = [c for c in kd.fi.local_nodes() if isinstance(c, ast.Call) and isinstance(c.func, ast.Attribute) and isinstance(c.func.value, ast.Name) and c.func.value.id == name and c.func.attr in ("sort", "reverse")]
+    if sa:
+        if len(sa) > 1 or sorts or len(sa[0].value.args) != 1 or [k.arg for k in sa[0].value.keywords] != ["key"]:
+            return "other", sa[0]
+        return _judge_sort_key(kd, sa[0].value.args[0].id, sa[0].value.keywords[0].value, sa[0])
     if not sorts:
         return "flat", None
     if len(sorts) > 1 or sorts[0].func.attr != "sort" or sorts[0].args or [k.arg for k in sorts[0].keywords] != ["key"]:
         return "other", sorts[0]
-    lam = sorts[0].keywords[0].value
+    return _judge_sort_key(kd, name, sorts[0].keywords[0].value, sorts[0])
+
+
+def _judge_sort_key(kd: "Kinds", name: str, lam: ast.expr, node: ast.AST):
+    """Is the sort key of the key view ``name`` the first-occurrence rank of the key's domain?"""
     if isinstance(lam, ast.Lambda) and len(lam.args.args) == 1 and isinstance(lam.body, ast.Subscript) and isinstance(lam.body.value, ast.Name) and lam.body.value.id in kd.domranks:
         # sort key = rank[domain of the key], the rank taken from a {domain: index} dict
         src, cut, wins = kd.domranks[lam.body.value.id]
         dom = _domain_of(lam.body.slice, lam.args.args[0].arg)
         if src == name and dom is not None and dom == cut == "first":
-            return ("grouped", sorts[0]) if wins == "first" else ("last", sorts[0])
-        return "other", sorts[0]
+            return ("grouped", node) if wins == "first" else ("last", node)
+        return "other", node
     if isinstance(lam, ast.Lambda) and len(lam.args.args) == 1 and isinstance(lam.body, ast.Call) and isinstance(lam.body.func, ast.Attribute) and lam.body.func.attr == "index" and isinstance(lam.body.func.value, ast.Name) and len(lam.body.args) == 1:
         dl = kd.domlists.get(lam.body.func.value.id)
         dom = _domain_of(lam.body.args[0], lam.args.args[0].arg)
@@ -1971,8 +2000,8 @@ def _key_order(kd: "Kinds", loop: ast.For):
             if 0 <= a0.slice.value < len(shape) and shape[a0.slice.value] == "DOMAIN" and dl is not None:
                 dom = dl[1]  # the record's domain field, cut where the helper cuts the key
         if dl is not None and dl[0] == name and dom is not None and dom == dl[1]:
-            return ("grouped", sorts[0]) if dom == "first" else ("other", sorts[0])
-    return "other", sorts[0]
+            return ("grouped", node) if dom == "first" else ("other", node)
+    return "other", node
 
 
 def _inline_pure_calls(e: ast.expr, mod, depth: int = 0) -> ast.expr:
